@@ -82,7 +82,7 @@ def fnum(v) -> Any:
 # generation: tree + phase-1 constraints
 # ------------------------------------------------------------------------------------------------
 
-def gen_tree(rng: random.Random, depth: int, pair_p: float = 0.3) -> dict:
+def gen_tree(rng: random.Random, depth: int, pair_p: float = 0.3, remap_p: float = 0.35) -> dict:
     g = ptgen.Gen(rng, depth)
     for _ in range(30):
         env, values = g.params()
@@ -114,10 +114,35 @@ def gen_tree(rng: random.Random, depth: int, pair_p: float = 0.3) -> dict:
                 mm[n] = None if k < 0.3 else (n if k < 0.7 else rng.choice(['p', 'r']))
         spec = ptgen.strip(spec)
         values = dict(values)
+        remap_indices(rng, spec, remap_p)
         if rng.random() < pair_p:
             spec = wrap_pair(rng, spec, pt.parameter_names, values, g.fresh)
         return {'spec': spec, 'values': values, 'cm': cm, 'mm': mm, 'counter': g.counter}
     raise core.MachineryError('generator failed to draw a well-formed template')
+
+
+def remap_indices(rng: random.Random, spec: dict, p: float) -> None:
+    """below some iterations insert `MappingPT({idx: f(idx)})` -- a mapping that RE-DEFINES the enclosing loop's index
+    name in terms of itself -- followed by a RepetitionPT / SequencePT level: everything below sees f(idx), not the raw
+    loop index (the repetition passes the scope it was given on; only the iteration binds the index).  f keeps
+    non-negative indices non-negative (the generator uses those as counts / range bounds)."""
+    for node in list(ptgen.spec_nodes(spec)):
+        if node['k'] != 'for' or rng.random() >= p:
+            continue
+        idx = node['idx']
+        f = rng.choice(['%s + 1', '%s + 2', '2*%s + 1', '%s + 3', '%s + 1']) % idx
+        body = node['body']
+        lvl = rng.random()
+        if lvl < 0.35:
+            body = {'k': 'rep', 'body': body, 'count': rng.choice(['1', '2']), 'meas': [], 'cons': []}
+        elif lvl < 0.55:
+            body = {'k': 'rep', 'body': {'k': 'seq', 'subs': [body], 'meas': [], 'cons': []}, 'count': '2', 'meas': [], 'cons': []}
+        elif lvl < 0.7:
+            body = {'k': 'seq', 'subs': [{'k': 'rep', 'body': body, 'count': '1', 'meas': [], 'cons': []}], 'meas': [], 'cons': []}
+        elif lvl < 0.8:
+            body = {'k': 'seq', 'subs': [body], 'meas': [], 'cons': []}
+        # else: the mapping alone (repetitions may follow deeper in the body)
+        node['body'] = {'k': 'map', 'body': body, 'pm': [[idx, f]], 'mm': None, 'cm': None, 'cons': [], 'remap': True}
 
 
 def wrap_pair(rng: random.Random, spec: dict, declared, values: dict, fresh) -> dict:
@@ -722,6 +747,9 @@ def assess(ctx: core.Ctx, rec: dict, count=True) -> Tuple[List[dict], List[str],
         if any(n.get('self_range') for n in ptgen.spec_nodes(rec['case']['spec'])) or \
                 rec['case'].get('label', '').startswith('self-range'):
             ctx.count('with-loop-range-naming-its-own-index')
+        if any(n.get('remap') for n in ptgen.spec_nodes(rec['case']['spec'])) or \
+                rec['case'].get('label', '').startswith('index-remap'):
+            ctx.count('with-mapping-that-redefines-the-loop-index')
         if any(n.get('pair') for n in ptgen.spec_nodes(rec['case']['spec'])) or \
                 rec['case'].get('label', '').startswith('nested-map'):
             ctx.count('with-composed-anonymous-mapping-pair')
@@ -947,6 +975,7 @@ def exhaustive_cases() -> List[dict]:
                                 'label': '%s/%s/%s/%s' % (kind, ctxname, rel, off)})
     out.extend(self_range_cases())
     out.extend(nested_map_cases())
+    out.extend(index_remap_cases())
     return out
 
 
@@ -985,6 +1014,54 @@ NESTED_OUTER = {'chain': [['x1', 'x2'], ['x2', 'c']], 'rchain': [['x2', 'x1'], [
 
 def _eval_simple(expr: str, env: Dict[str, F]) -> F:
     return F(eval(expr, {'__builtins__': {}}, dict(env)))      # noqa: S307 -- own literals: names, +, numbers
+
+
+def index_remap_cases() -> List[dict]:
+    """`ForLoopPT(idx i)` -> `MappingPT({i: f(i)})` (a mapped name EQUAL to the loop index) -> repetition / sequence levels
+    -> a node that constrains (and plays) `i`: it sees f(i).  Controls: identity mapping, the mapping of another name,
+    no level in between.  Constraint `i REL K` on the leaf / on a sequence around it / on the repetition itself with K
+    below / on / above the extreme value over the iterations (range(0, n), n = 3); judged by Lean."""
+    out = []
+    eighth = F(1, 8)
+    maps = {'plus10': ('i', 'i + 10', lambda i: i + 10), 'identity': ('i', 'i', lambda i: i),
+            'other': ('a', '2*i + 1', lambda i: 2 * i + 1)}
+    levels = ('none', 'rep2', 'repn', 'seq-rep', 'rep-seq', 'rep-rep')
+    pairs = [('<=', -eighth), ('<=', F(0)), ('<', F(0)), ('<', eighth), ('>=', F(0)), ('>=', eighth), ('>', F(0)), ('>', -eighth)]
+    for mname, (var, expr, f) in maps.items():
+        vals = [F(f(i)) for i in range(3)]
+        for lname in levels:
+            for where in ('leaf', 'seq', 'rep'):
+                if where == 'rep' and lname in ('none',):
+                    continue
+                for rel, off in pairs:
+                    ref = max(vals) if rel in ('<=', '<') else min(vals)
+                    for _once in (0,):
+                        con = ['%s %s %s' % (var, rel, ptgen.fstr(ref + off))]
+                        leaf = {'k': 'table', 'entries': [['A', [['0', var, 'hold'], ['1', var, 'hold']]]], 'meas': [],
+                                'cons': con if where == 'leaf' else []}
+                        x = {'k': 'seq', 'subs': [leaf], 'meas': [], 'cons': con} if where == 'seq' else leaf
+                        rc = con if where == 'rep' else []
+
+                        def rep(b, c, cons=()):
+                            return {'k': 'rep', 'body': b, 'count': c, 'meas': [], 'cons': list(cons)}
+                        if lname == 'rep1':
+                            x = rep(x, '1', rc)
+                        elif lname == 'rep2':
+                            x = rep(x, '2', rc)
+                        elif lname == 'repn':
+                            x = rep(x, 'k', rc)
+                        elif lname == 'seq-rep':
+                            x = {'k': 'seq', 'subs': [rep(x, '2', rc)], 'meas': [], 'cons': []}
+                        elif lname == 'rep-seq':
+                            x = rep({'k': 'seq', 'subs': [x], 'meas': [], 'cons': []}, '2', rc)
+                        elif lname == 'rep-rep':
+                            x = rep(rep(x, '2', rc), '2')
+                        m = {'k': 'map', 'body': x, 'pm': [[var, expr]], 'mm': None, 'cm': None, 'cons': []}
+                        spec = {'k': 'for', 'body': m, 'idx': 'i', 'range': ['0', 'n', '1'], 'meas': [], 'cons': []}
+                        out.append({'spec': spec, 'params': {}, 'param_pool': {'n': 3, 'k': 2, 'a': 0.5, 'i': 7}, 'cm': {},
+                                    'mm': None, 'stream': 'exhaustive',
+                                    'label': 'index-remap/%s/%s/%s/%s/%s' % (mname, lname, where, rel, off)})
+    return out
 
 
 def nested_map_cases() -> List[dict]:
@@ -1077,7 +1154,9 @@ def run(ctx: core.Ctx):
                 'visible constraint violated; one constraint of a node that is not visited violated; extra names incl. inner '
                 'mapping names, loop indices and the reserved t; one declared name removed); 30 % of the trees are wrapped in a '
                 'pair of directly nested mappings (anonymous constraint free inner mapping that the constructor merges, outer '
-                'mapping a rename chain / swap / cycle over mapped names) which the Lean side sees as composed; plus the '
+                'mapping a rename chain / swap / cycle over mapped names) which the Lean side sees as composed; below 35 % of '
+                'the iterations a mapping that re-defines the loop index name in terms of itself, followed by repetition / '
+                'sequence levels; plus the '
                 'exhaustive space below. '
                 'Non-trivial = at least one constraint is visible and the tree has more than one node; distinct by request line')
     ctx.assumptions = [
@@ -1098,7 +1177,9 @@ def run(ctx: core.Ctx):
                                  'the user (anonymous constraint free inner mapping: rename / sum / identity; outer mapping: '
                                  'rename chain in both orders / swap / chain with expressions / plain; 4 node kinds below '
                                  'carrying a constraint below / on / above the boundary in 3 relations; exactly the declared '
-                                 'names, extra inner names, one name missing): %d cases' % len(ex))
+                                 'names, extra inner names, one name missing), plus iteration -> mapping of the loop index name '
+                                 '(i -> i + 10 / identity / another name) -> 6 repetition / sequence levels -> constraint on the '
+                                 'leaf / a sequence / the repetition, 8 relation-constant pairs on the boundary: %d cases' % len(ex))
     recs = [r for r in _pool_map(ctx, evaluate_case, ex) if r is not None]
     # random trees: phase A (draw + probe), phase B (streams)
     depth = 4 if ctx.quick else 5
